@@ -77,8 +77,14 @@ def run_case(seed, tier, rec, st):
             return
         wname = tg.fresh("W")
         wmixin = rng.random() < 0.6
+        wx = {"n": "x", "t": t}
+        FALSY = {"int": 0, "str": "", "bool": False, "float": 0.0, "decimal": __import__("decimal").Decimal(0),
+                 "timedelta": __import__("datetime").timedelta(0), "fraction": __import__("fractions").Fraction(0)}
+        if t[0] == "opt" and tast.strip(t[1])[0] in FALSY and rng.random() < 0.7:
+            # a nullable member whose default is falsy but not None: an explicit null is still a value of its own
+            wx.update(dmode="default", dseed=0, const_default=FALSY[tast.strip(t[1])[0]])
         fam.add({"k": "dc", "name": wname, "bases": [], "mixin": "DataClassDictMixin" if wmixin else None,
-                 "fields": [{"n": "x", "t": t}]}, tg.value_maker)
+                 "fields": [wx]}, tg.value_maker)
         W = fam.get(wname)
         wdec = None if wmixin else BasicDecoder(W)
         vg = Gen(fam, rng)
@@ -97,6 +103,14 @@ def run_case(seed, tier, rec, st):
                 fam.exec_src("class EmptyD(Dialect):\n    pass\n")
             if rng.random() < 0.3:
                 fcfg["lazy_compilation"] = "True"
+            present = sorted(k for k in fnat if any(n[0] == k for n in common.deep_nodes(fam, t)))
+            if present and rng.random() < 0.4:
+                # a WRITE-only registration for a type the format reads natively, above the format dialect: reading is
+                # still the format's own business
+                srcname = {"bytes": "bytes", "bytearray": "bytearray", "datetime": "datetime.datetime", "date": "datetime.date", "time": "datetime.time", "uuid": "uuid.UUID"}
+                fam.exec_src("def _keep(x):\n    return x\n")
+                fcfg["serialization_strategy"] = "{" + ", ".join(f"{srcname[k]}: {{'serialize': _keep}}" for k in present) + "}"
+                rec.count("write_only_registration_above_format_dialect")
             fam.add({"k": "dc", "name": fname, "bases": [], "mixin": fmix, "fields": [{"n": "x", "t": t}], "config": fcfg}, tg.value_maker)
             WF = fam.get(fname)
         for j in range(3):
